@@ -227,18 +227,29 @@ func (e *Engine) ptrHeap(elem types.Type) (string, string) {
 		return "H:big", "(Array Int Int)"
 	}
 	srt := e.sortOf(elem)
-	return "H:" + sortKey(srt), "(Array Int " + srt + ")"
+	if _, isStruct := elem.Underlying().(*types.Struct); isStruct {
+		return "H:" + sortKey(srt), "(Array Int " + srt + ")"
+	}
+	// pointers to different Go types never alias (no unsafe): one heap per pointee type
+	return "H:" + typeKey(elem), "(Array Int " + srt + ")"
+}
+
+// typeKey is a stable, SMT-safe name for a Go type.
+func typeKey(t types.Type) string {
+	return sanitize(types.TypeString(t, func(p *types.Package) string { return p.Name() }))
 }
 
 func (e *Engine) elemHeap(elem types.Type) (string, string) {
 	srt := e.sortOf(elem)
-	return "E:" + sortKey(srt), "(Array Int (Array Int " + srt + "))"
+	// backing arrays of slices with different element types never alias: one heap per element type
+	return "E:" + typeKey(elem), "(Array Int (Array Int " + srt + "))"
 }
 
 func (e *Engine) mapHeaps(m *types.Map) (vn, vs, dn, ds string) {
 	ks := e.sortOf(m.Key())
 	es := e.sortOf(m.Elem())
-	k := sortKey(ks) + "__" + sortKey(es)
+	// maps of different Go types never alias: one pair of heaps per (key type, element type)
+	k := typeKey(m.Key()) + "__" + typeKey(m.Elem())
 	return "M:" + k, fmt.Sprintf("(Array Int (Array %s %s))", ks, es), "D:" + k, fmt.Sprintf("(Array Int (Array %s Bool))", ks)
 }
 
